@@ -10,6 +10,11 @@
 (* that rendering, same = all renderings are the same text.                *)
 (* The mutators are the E* operators of Deb822ReaderEdits; every rendering *)
 (* must re-parse to exactly the model's current fields in current order.   *)
+(* Refused / failing calls (refused_set, absent, popitem_empty,             *)
+(* sort_key_fault, sort_key_incomparable, dump_fault; e.how = the variant) *)
+(* carry the observed outcome e.res ("ok", the exception class, "caller" = *)
+(* the caller's own exception object came out): it must be the model's, the *)
+(* paragraph afterwards and all its renderings must be what they were.     *)
 (***************************************************************************)
 EXTENDS Deb822ReaderEdits, IOUtils, TLCExt
 
@@ -17,6 +22,7 @@ Traces == JsonDeserialize(IOEnv.TRACE_FILE)
 Diag   == IOEnv.TRACE_DIAG = "1"
 
 VARIABLES tid, l
+Chk(pred_) == pred_ = TRUE      \* pure checks inside an action: no branching
 Tr == Traces[tid]
 
 TEInit == /\ tid \in 1..Len(Traces) /\ l = 1
@@ -38,18 +44,33 @@ Effect(o, e) ==
     [] e.op = "sort_fields"      -> ESort(o, TRUE)
     [] e.op = "sort_fields_key"  -> ESort(o, FALSE)
     [] e.op \in {"merge_only_here", "render"} -> o
+    [] e.op = "refused_set"      -> ERefused(o, e.k, e.how)
+    [] e.op \in {"absent", "popitem_empty", "sort_key_fault", "sort_key_incomparable", "dump_fault"} -> o
+
+\* the outcome of the call itself
+Outcome(o, e) ==
+  CASE e.op = "refused_set"           -> ERefusedRes(o, e.k, e.how)
+    [] e.op = "absent"                -> EAbsentRes(e.how)
+    [] e.op = "popitem_empty"         -> "KeyError"
+    [] e.op \in {"sort_key_fault", "dump_fault"} -> ECallerRes(o)
+    [] e.op = "sort_key_incomparable" -> EIncomparableRes(o)
+    [] OTHER                          -> "ok"
 
 Defined(o, e) == /\ e.op \in {"del", "pop", "order_first", "order_last", "merge_only_here"} => EHas(o, e.k)
                  /\ e.op \in {"order_before", "order_after"} => (e.k # e.r /\ EHas(o, e.k) /\ EHas(o, e.r))
                  /\ e.op = "popitem" => o # <<>>
                  /\ e.op = "merge_from_other" => ~EHas(o, e.k)
+                 /\ e.op = "refused_set" => (e.how \in SetHows /\ (e.how = "merge" => ~EHas(o, e.k)))
+                 /\ e.op = "absent" => (e.how \in AbsHows /\ ~EHas(o, e.k))
+                 /\ e.op = "popitem_empty" => o = <<>>
 
 TEStep == /\ l <= Len(Tr.events)
           /\ LET e == Tr.events[l] IN
-               /\ Defined(obj, e)
+               /\ Chk(Defined(obj, e))
+               /\ e.res = Outcome(obj, e)                          \* the call ends the way the model says
                /\ obj' = Effect(obj, e)
                /\ obj' = e.obs                                   \* the object is what the model says
-               /\ \A i \in 1..Len(e.rend) : e.rend[i] = (IF obj' = <<>> THEN <<>> ELSE <<obj'>>)   \* every rendering re-parses to it
+               /\ Chk(\A i \in 1..Len(e.rend) : e.rend[i] = (IF obj' = <<>> THEN <<>> ELSE <<obj'>>))   \* every rendering re-parses to it
                /\ e.same
           /\ l' = l + 1 /\ UNCHANGED <<tid, vars, memo>>
           /\ (Diag => PrintT(<<"AT", tid, l>>))
